@@ -16,10 +16,10 @@ func init() {
 		Level: "exploration",
 		Rule: "exhaustive small scope: all arrays of length 0..3 over {null, 0, \"s\", [], [1], {}, {\"a\":1}} and of length 4 over {null, 0, [1]}, plus non-array documents, x all single subscripts over -2..6, 0.5, 1.9, -0.5, last, last-1, last-2, last+1, all ranges and all pairs of those, nested and non-numeric subscripts, lax and strict, verbose and silent; " +
 			"random arrays up to length 12 with lists up to 4 and bounds to +-2^31. Oracle: slice arithmetic written in the harness. Non-trivial: array length >= 1; distinct by (array, subscript list, mode, silent)",
-		Run:    runC14,
-		Replay: replayC14,
-		MinExercised: map[string]int64{"single": 5000, "range": 20000, "list": 20000, "last": 5000, "lax.clip": 5000, "lax.wrap": 500, "strict.bounds": 5000, "badsubscript": 200},
-		Assumptions: []string{"positions are trunc(e) toward zero; ranges inclusive; last = n-1 of the innermost subscripted array"},
+		Run:          runC14,
+		Replay:       replayC14,
+		MinExercised: map[string]int64{"single": 5000, "range": 20000, "list": 20000, "last": 5000, "lax.clip": 5000, "lax.wrap": 500, "strict.bounds": 5000, "strict.below-any": 200, "badsubscript": 200},
+		Assumptions:  []string{"positions are trunc(e) toward zero; ranges inclusive; last = n-1 of the innermost subscripted array"},
 	})
 }
 
@@ -340,6 +340,38 @@ func runC14(c *h.Ctx) {
 			}
 		}
 	}
+	// strict mode below .**: only member accessors skip what they do not apply
+	// to; a subscript on a non-array stays the structural error, it does not
+	// turn the value into a one-element array (that is lax mode)
+	for _, d := range []string{"null", "0", `"s"`, "{}", `{"a":1}`, "true", `{"a":{"b":2}}`} {
+		for _, pre := range []string{"$.**{0}", "$.**", "$.**{0 to 1}", "$.**{last}", "$.*.**{0}"} {
+			for _, s := range singles {
+				idx++
+				if !c.Mine(idx) {
+					continue
+				}
+				ptxt := "strict " + pre + "[" + s.text() + "]"
+				p := cachedPath(ptxt)
+				if p == nil {
+					continue
+				}
+				if pre == "$.*.**{0}" && (d[0] != '{' || d == "{}") {
+					continue // $.* fails or selects nothing first
+				}
+				if pre == "$.**{last}" && (d[0] != '{' || d == "{}") {
+					continue // no leaves: nothing reaches the subscript
+				}
+				o := h.Call("query", p, h.Decode(d, false), h.Opts{})
+				c.Eval(1)
+				c.Distinct(ptxt, d)
+				if o.Class == h.Soft {
+					c.Held("strict.below-any")
+				} else if o.Class != h.Panic && o.Class != h.Invalid {
+					c.Violate("strict.below-any", h.F("got", o.Class), fmt.Sprintf("Query(%s) on %s = %s; a strict subscript applied to a non-array is a structural error", ptxt, d, o.Summary()), h.Case{Kind: "belowany", Path: ptxt, Doc: d})
+				}
+			}
+		}
+	}
 	// bad subscripts: not a single number within int32 range -> error in both modes
 	bad := []string{`"a"`, "true", "null", "$.nokey", "$[*]", "$", "2147483648", "-2147483649", "1e10", "$.a", "(1, 2)", `"1"`, "$[0 to 1]", "9223372036854775807", "$ ? (@ == 99)"}
 	docs := []string{`[1,2,3]`, `[[1,2],3]`, `[]`, `[null]`, `{"a":"x"}`}
@@ -507,7 +539,8 @@ func runC14(c *h.Ctx) {
 	r := c.Rand("c14")
 	nr := c.PerShard(c.N(1000000, 10000000))
 	elemsAll := []string{"null", "0", "1", `"s"`, "[]", "[1,2]", "{}", `{"a":1}`, "true", "1.5", "-3"}
-	big := []bound{{text: "2147483647", val: 2147483647}, {text: "-2147483648", val: -2147483648}, {text: "100", val: 100}, {text: "-100", val: -100}, {text: "11.7", val: 11.7}, {text: "-1.9", val: -1.9}, {text: "2e1", val: 20}, {text: "1e0", val: 1}}
+	big := []bound{{text: "2147483647", val: 2147483647}, {text: "-2147483648", val: -2147483648}, {text: "100", val: 100}, {text: "-100", val: -100}, {text: "11.7", val: 11.7}, {text: "-1.9", val: -1.9}, {text: "2e1", val: 20}, {text: "1e0", val: 1},
+		{text: "2147483647.9", val: 2147483647.9}, {text: "-2147483648.5", val: -2147483648.5}, {text: "2147483646.5", val: 2147483646.5}, {text: "2147483647 + 0.5", val: 2147483647.5}}
 	allB := append(append([]bound{}, c14Bounds...), big...)
 	for i := 0; i < nr; i++ {
 		n := r.IntN(13)
